@@ -382,10 +382,23 @@ static HOOK: Once = Once::new();
 static SIG_CACHE: Mutex<BTreeMap<String, String>> = Mutex::new(BTreeMap::new());
 
 fn norm_msg(m: &str) -> String {
-    // digits -> '#', keep first 70 chars, so that value-dependent messages share a signature
+    // digits -> '#', parenthesised / bracketed details dropped, first 90 chars kept, so that
+    // value-dependent messages share a signature
     let mut out = String::new();
     let mut last_hash = false;
+    let mut depth = 0i32;
     for c in m.chars() {
+        if c == '(' || c == '[' {
+            depth += 1;
+            continue;
+        }
+        if c == ')' || c == ']' {
+            depth = (depth - 1).max(0);
+            continue;
+        }
+        if depth > 0 {
+            continue;
+        }
         if c.is_ascii_digit() {
             if !last_hash {
                 out.push('#');
@@ -395,7 +408,7 @@ fn norm_msg(m: &str) -> String {
             last_hash = false;
             out.push(if c.is_whitespace() { '_' } else { c });
         }
-        if out.len() >= 70 {
+        if out.len() >= 90 {
             break;
         }
     }
